@@ -5,6 +5,28 @@ VERIF = os.path.dirname(os.path.dirname(os.path.abspath(__file__)))
 ALL = [f"C{i:02d}" for i in range(1, 21)]
 
 CLAIMS = {
+ "C04": dict(
+    category="other",
+    text="Partial proof + fault enumeration. PROVED in Lean over a model of the parser primitives (cursor, fuel = Gen.parserFuel and the expect "
+         "recovery set = Gen.recoveryTokens, both regenerated from parser.rs on every run; peek/nth/eof/at/eat/advance/expect/advance_with_error): "
+         "peek_stuck_eof (after `fuel` looks without an advance every further look answers eof, reported once: stuck_reported_once), loop_terminates "
+         "(a `while !at(k) && !eof` loop whose body advances or spends fuel leaves within (fuel+1)(n+1) iterations), dispatch_progress (an if/else-if chain "
+         "of guards with an advancing default makes progress whatever its branches do), file_consumes_all (the top-level loop of file() terminates with "
+         "every token consumed, for any item parsers built from the primitives), expect_keeps_recovery_token, error_range_is_token_range. The model is "
+         "diffed against the real Parser object on random op sequences. Termination/validation of package graphs and artefacts is C16/C15 "
+         "(Props/C15.lean validate_iff, corrupt_core_rejected, other_version_*_rejected). SEARCHED, not proved: every entry point (parse, compile incl. the "
+         "CLI's error formatting and all stage pretty-printers, check_package, build_package, read_core, link_cores) on random texts, byte/token/"
+         "same-class-token mutations of the corpus and of generated programs, type-directed generated programs (well-typed and with one ill-typed hole), "
+         "22 nesting forms to depth 200, package directory layouts (missing/misnamed/cyclic/self-importing/invalid-UTF-8/multi-file), altered artefacts "
+         "(random bytes/JSON, truncation, every kind of single-value change) — each case in a child process (8 MiB main-thread stack) under catch_unwind "
+         "with a CPU-time watchdog; oracle: Ok or Err with at least one error diagnostic, every diagnostic range inside the text on char boundaries, no panic, "
+         "no abort, no hang. One signature per panic site (file + function) x entry point x stream class.",
+    design_ref="§5 C04, §C04 — as built",
+    note="Trusted: Lean kernel; extract_parser_consts/extract_recovery (regex over parser.rs, expr.rs, file.rs); harness/src/c04.rs, c04gen.rs, crash.rs, "
+         "jsonspan.rs. Crash-freedom is a search result over the explored inputs only; item parsers are covered by the StepOK closure argument, not modelled one "
+         "by one; ranges of diagnostics of multi-file projects are not checked (no file attribution). Known findings: polymorphic recursion never returns; "
+         "link_cores panics on a .core whose core_ir was edited (three sites).",
+    technique="Lean 4 proof of the parser's termination logic + op-sequence correspondence + crash/hang search in child processes (fault enumeration)"),
  "C03": dict(
     category="proof",
     text="Lean theorems over the type-consistency judgement Wt.errs (Model/Wt.lean: every node's annotation agrees with its children, "
@@ -99,14 +121,22 @@ CLAIMS = {
          "out-of-range array_get or a failing callee in every operand / argument / branch / arm / condition / loop-body / discarded-let / unused-let / "
          "go position; nested compositions) whose programs are compiled by the real pipeline; the real Core, Mono, Lift, ANF dumps run under Sem "
          "and the real Go AST under Go.Sem, under both go schedules, and must agree with each other (first divergent stage reported) and with "
-         "the trace the generator itself computes for the source program (labels in evaluation order, final Ref value, failure point).",
+         "the trace the generator itself computes for the source program (labels in evaluation order, final Ref value, failure point). "
+         "Operands of every binary / logical form are also placed inside ten nearly-trivial shapes (field of a returned struct or of a struct "
+         "literal, tuple projection, enum payload via match, double negation, nested && / ||, array_get / vec_get of a call, int32_to_string of a "
+         "call, call of a closure variable) with the left operand of && / || deciding and not deciding. Translator: the guard of the "
+         "EBinary{And|Or} arm and the immediates of anf_imm are regenerated from anf.rs (Gen/AnfGuards.lean); the model's trivialRhs reads the "
+         "table and trivialRhs_eq_isAtom, on which the preservation proofs rest, re-checks it.",
     design_ref="§5 C09, §C09 — as built",
     note="Proved: the theorems above, about Model/Anf.lean and Sem. Caveat in the theorems: a source run that goes wrong (Fail.stuck = ill-typed IR) "
          "is only required to be matched by some outcome (ANF names all operands before the operation, so it notices an ill-typed operand later); "
          "well-typedness of the IR is C03's. Validated only: that the model equals anf.rs (exact tie on every real function, every run); the statement "
          "lowering of go/compile.rs outside InGoFragment (inside it: Model/GoCompile.lean tied exactly by `gv gocomp`, Props/GoCompile.lean "
-         "compile_preserves / compile_order, see DESIGN 'Go back end (compile.rs) - as built') and go/dce.rs - covered by the stage-wise oracle on the Go stage, "
-         "dce.rs is modelled and proved by worker dce; real goroutine interleavings (the semantics offers two schedules: run the activation at "
+         "compile_preserves / compile_order, see DESIGN 'Go back end (compile.rs) - as built') - covered by the stage-wise oracle on the Go stage. "
+         "go/dce.rs has its own model (Model/Dce.lean) tied exactly to the real pass on every run (gv dce | gomlmodel dce) and Props/Dce.lean proves "
+         "dce_preserves / dce_preserves_body / dce_preserves_syn: every definite Go.Sem run (normal end or panic) of a function body is reproduced by the DCE'd "
+         "body with the same world, signal and result, under the decidable contract scopeErrs = [] /\\ shapeOK /\\ semOK (forward simulation; divergence of the "
+         "input run and simultaneous DCE of callees are not covered); real goroutine interleavings (the semantics offers two schedules: run the activation at "
          "the spawn / never before the spawner ends). Two small refinements of Sem.lean were needed and agreed: a tag evaluates to the enum value "
          "of its type, and && / || with a non-boolean left operand get stuck before the right operand is evaluated. Found and fixed: dead-code "
          "elimination dropped a dead division by zero (known_findings.json, fix commit by worker dce). Trusted: Lean kernel, Sem/Go.Sem, dump "
@@ -267,7 +297,7 @@ CLAIMS = {
          "reachable package directory exists and declares its own name and there is no cycle), coherent (accepted implies at most one impl per "
          "(trait, type)), order_independent (acceptance is invariant under any permutation of the type-check/merge order), enum_independent, "
          "merge_check_redundant (orphan rule + visibility + acyclicity already exclude cross-package duplicates). Tie: generated worlds "
-         "(layouts with cycles, diamonds, missing, misdeclared, inconsistent directories x placements of 8 reference forms and of trait and inherent impls by "
+         "(layouts with cycles, diamonds, missing, misdeclared, inconsistent directories x placements of 12 reference forms (incl. three-segment paths P::S::f / P::T::m and values of un-imported types) and of trait and inherent impls by "
          "trait owner x target type (named, primitive, Vec/Ref/tuple/array/function/dyn/generic instance over own, foreign or primitive "
          "arguments), in the root package and in libraries, in files with and without imports) compiled by the real pipeline::compile; accept/reject, graph error and "
          "set of diagnostic classes must equal the model's; a declarative oracle (package-level, from the property text) demands rejection "
@@ -288,6 +318,26 @@ CLAIMS = {
     note="Trusted: Lean kernel; injectivity of SHA-256∘serde_json is a hypothesis; edit catalogue of 10 interface variants; textual JSON mutation; "
          "error-message classification in harness/src/c15.rs. Known finding: core_ir is covered by no digest.",
     technique="Lean 4 proof (invariant by induction over operation histories) + history-level differential correspondence"),
+ "C20": dict(
+    category="other",
+    text="Partial proof + fault enumeration. PROVED in Lean over a model of line-index's LineIndex, the offset_at glue of query.rs (its three "
+         "checks are regenerated from the Rust source into Gen/QueryGlue.lean on every run), rowan's token_at_offset on the leaf tokens and the "
+         "completion-placeholder logic: offset_total (for every text and every (line, col) the offset handed to the queries is absent or lies in "
+         "[0, len] on a char boundary), offset_complete (every in-text boundary position is accepted), token_at_in_range (the token selection never "
+         "fails for an in-range offset and every selected token contains it), hover_no_bad_offset (rowan's assertion cannot fire), "
+         "dot_prepare_safe / colon_prepare_safe (the `.`/`::` anchor and the focus offset lie inside the parsed text, insert_str is called on a "
+         "char boundary); the unfixed code is kept as Glue.unchecked with the counter-example. The model is diffed against the line-index crate, "
+         "rowan and the observable behaviour of the queries on every tie position. SEARCHED, not proved: that hover_type / dot_completions / "
+         "colon_colon_completions and the wasm-app wrappers return normally (catch_unwind + 5 s watchdog) on every prefix (token boundaries and "
+         "mid-token) and token-level mutation of corpus, seed, generated and token-soup programs x every (line, col) incl. positions outside the "
+         "text; that hover at every TAST identifier of an accepted program equals the TAST type; that every offered completion, inserted, does not "
+         "draw the diagnostic a non-existent name draws.",
+    design_ref="§5 C20, §C20 — as built",
+    note="Trusted: Lean kernel; extract_query_glue (regex over query.rs); harness/src/c20.rs + crash.rs; line-index and rowan behave as modelled "
+         "(diffed, not proved); token tiling of the tree (C12) is a hypothesis. Crash-freedom of lowering/hir/typer on erroneous programs is a search "
+         "result over the explored texts only. Known findings: hover on shorthand struct fields/binders and on dyn-coerced variables; `::` completions "
+         "in an impl header.",
+    technique="Lean 4 proof of the position logic + differential tie + crash/hang search (fault enumeration) + hover/completion differential against the compiler"),
  "C17": dict(
     category="proof",
     text="Lean theorems over a transcription of the four places that name a method's function (definition site and static site in "
@@ -343,7 +393,17 @@ CLAIMS = {
          "resolution, typer elaboration, match compilation). Where a value does not reveal what types decide SrcSem answers "
          "`unsupported:<why>` and the check falls back to Core for that program (evidence: counts and reasons). Proved about SrcSem "
          "(Props/C01src.lean): struct patterns and struct literals are invariant under permutation of their written fields, initialisers "
-         "run in written order, environments are only passed down, lookup = the C05 resolver model's lookup.",
+         "run in written order, environments are only passed down, lookup = the C05 resolver model's lookup. "
+         "PIPELINE COMPOSITION (Props/C01pipe.lean): the per-pass theorems are chained into one theorem about the composite middle-end model "
+         "pipeline = anf . lift . mono (Model/Pipeline.lean; pass order re-extracted from pipeline.rs every run): pipeline_preserves - for every "
+         "Core program in the decidable InPipeFragment, every definite Sem run of main (normal end or panic, with stdout and extern events) is "
+         "reproduced by the ANF program, for every sufficiently large fuel, under either go schedule. Links: a NEW lock-step simulation of mono "
+         "under the full Sem (closures, renamed instances and type instances; Lemmas/PipeMonoSim.lean), lift_preserves_partial (C08), "
+         "anf_run_preserves_partial (C09). pipeline_preserves_partial: the same from the Mono program on, for programs with ETraitCall (whose "
+         "Core->Mono link needs type soundness). end_to_end_partial continues to Go.Sem of the emitted file with go/compile.rs (CompileSim) and "
+         "the file-level lifting of dce_preserves (DceFileSim) as explicit hypotheses (parameters, not axioms). Tie: the composite model on the "
+         "REAL Core dump equals the REAL Mono, Lift and ANF dumps for every corpus and generated program; the evidence reports how many real "
+         "programs lie inside each fragment and why the others do not.",
     design_ref="§5 C01",
     note="Trusted: Sem/Go.Sem as definitions (Go.Sem reproduces all recorded corpus outputs), harness IR serialisers, the generator's coverage. "
          "The Go back end has its own model (Model/GoCompile.lean, exact tie `gv gocomp` on every run) and, for the stage-(a) fragment, a proved "
@@ -357,12 +417,16 @@ CLAIMS = {
     text="Go.Check, a Lean checker for the rules go build/go vet enforce on the emitted subset (declared once and before use, typed "
          "assignment/call/return/composite literal, interface satisfaction, unused locals and imports, terminating statements, legal "
          "identifiers), applied to the REAL Go AST of every accepted corpus and generated program. goIdent_legal (C19) proves identifier "
-         "legality for all strings. Known findings: closures in func-typed positions, missing() at a non-unit type.",
-    design_ref="§5 C02",
+         "legality for all strings. The printed text is tied to that AST on every run (go_pprint output parsed back by goparse.rs with "
+         "Go's automatic-semicolon, precedence and composite-literal rules; oracle go-printer). Dead-code elimination (go/dce.rs) has a "
+         "Lean model tied exactly to the real pass (gv dce | gomlmodel dce) and theorems in Props/Dce.lean: dce_no_unused (every kept "
+         "local and type-switch binding is read), dce_decl_before_use, prune_imports_exact, prune_funcs_closed. "
+         "Known findings: closures in func-typed positions, nested type switch on one scrutinee, dyn-annotated struct literal.",
+    design_ref="§5 C02; DCE (C02/C09) — as built",
     note="Trusted: Go.Check as our reading of the Go spec (accepts the 73 corpus programs real Go accepted, rejects 058 as real Go did); "
-         "scope rules of the back end's output are proved for InGoFragment functions (Props/GoCompile.lean compile_wellformed + Props/Dce.lean), typing is validated only; "
-         "goast dump; go_pprint.rs not covered.",
-    technique="translation validation with a Lean-defined Go type/scope checker on the real Go AST"),
+         "goast dump; goparse.rs as our reading of Go's lexical grammar; compile.rs is modelled (Model/GoCompile.lean, exact tie `gv gocomp`): the scope rules of its "
+         "output are proved for InGoFragment functions (Props/GoCompile.lean compile_wellformed + Props/Dce.lean), typing and everything outside the fragment are validated per program.",
+    technique="translation validation with a Lean-defined Go type/scope checker on the real Go AST, printer round trip, and Lean theorems about the DCE pass"),
  "C14": dict(
     category="proof",
     text="Lean theorems over Sem (Model/Sem.lean) and Model/Alpha.lean about exactly the two things in which the Core handed to mono/lift/anf/go differs "
